@@ -335,6 +335,9 @@ def do_part(test, ph, part):
                 buf.flush()
             else:
                 stream.write("TOK%dK\n" % tok)
+        elif part.get("ctrl"):
+            # terminal colours, a NUL, a form feed: legal output of a test, not legal characters of XML
+            stream.write("\x1b[31mTOK%dK\x1b[0m\x00\x0c\ufffe\n" % tok)
         elif mode == 0:
             stream.write("TOK%dK\n" % tok)
         elif mode == 1:
